@@ -45,7 +45,7 @@ def dyadic(c):
     return c.int(-8, 8) / 4.0
 
 
-def make(struct, c, key_order=None):
+def make(struct, c, key_order=None, scale=1.0):
     t = struct[0]
     if t == "pyfloat":
         return dyadic(c)
@@ -62,8 +62,11 @@ def make(struct, c, key_order=None):
         a = onp.array([dyadic(c) for _ in range(n)], dtype=float).reshape(shape)
         if dt.kind == "c":
             a = a + 1j * onp.array([dyadic(c) for _ in range(n)], dtype=float).reshape(shape)
-        return a.astype(dt)
-    kids = [make(k, c) for k in struct[1]]
+        a = a.astype(dt)
+        if struct[1] in ("longdouble", "clongdouble") and scale != 1.0:
+            a = a * onp.longdouble(2.0) ** -600  # exact scaling; <x,x> = O(2^-1200) is far below the float64 range
+        return a
+    kids = [make(k, c, scale=scale) for k in struct[1]]
     if t == "tuple":
         return tuple(kids)
     if t == "list":
@@ -125,7 +128,8 @@ def body(c):
     from autograd.core import vspace
 
     struct = gen_struct(c, c.int(0, 3))
-    x, y, z = make(struct, c), make(struct, c, key_order="reversed" if c.bool() else None), make(struct, c)
+    tiny = 2.0 if c.chance(1, 3) else 1.0  # extended-precision leaves scaled by 2^-600 (other leaves unaffected)
+    x, y, z = make(struct, c, scale=tiny), make(struct, c, key_order="reversed" if c.bool() else None, scale=tiny), make(struct, c, scale=tiny)
     a, b = c.choice([0.5, -1.5, 2.0, 0.25]), c.choice([1.5, -0.5, 4.0])
     sample = {"struct": struct, "x": repr(x)[:200]}
     bucket = lambda k: f"C13|axioms|{k}"
@@ -175,10 +179,16 @@ def body(c):
             probs.append(("inner_bilinear", "inner_prod not real-bilinear"))
         ixx = ip(x, x)
         nz = any(onp.any(onp.asarray(l) != 0) for l in leaves(x))
-        if nz and not (float(onp.real(ixx)) > 0):
+        if nz and not (onp.real(ixx) > 0):  # no conversion to float64: extended-precision values may lie below its range
             probs.append(("inner_positive", f"<x,x>={ixx!r} for x != 0"))
         if abs(complex(ip(vs.zeros(), vs.zeros()))) != 0:
             probs.append(("inner_zero", "<0,0> != 0"))
+        if struct[0] == "array" and struct[1] == "longdouble" and size >= 2 and onp.finfo(onp.longdouble).nmant > 52:
+            # the inner product of an extended-precision space is computed in that precision
+            e1 = onp.zeros(tuple(struct[2]), dtype=onp.longdouble)
+            e1.reshape(-1)[0], e1.reshape(-1)[1] = 1.0, onp.longdouble(2.0) ** -60
+            if ip(e1, onp.ones(tuple(struct[2]), dtype=onp.longdouble)) - onp.longdouble(1.0) != onp.longdouble(2.0) ** -60:
+                probs.append(("inner_precision", "longdouble inner product is not computed in extended precision"))
         if int(vs.size) != size:
             probs.append(("size", f"size {vs.size} but {size} real degrees of freedom"))
         if size <= 16:
